@@ -843,6 +843,24 @@ let handle (r : reader) : unit =
       let sh = shift Hpx w (n_of_int d) in
       (match split_okb nb (cells_of sh m) (List.map (cells_of sh) parts) with
        | Yes -> out_s "OK YES" | No -> out_s "OK NO" | Unknown -> out_s "OK UNKNOWN")
+  | "SPLITF" ->
+      (* SPLITF <4|8> w d ranges -> the components the flood fill of split_into_joint_mocs_gen produces, in
+         order, each as its cells in vector order:  OK n then per component k and k pairs depth idx *)
+      let conn = next_int r in
+      let w = next_n r in
+      let d = next_int r in
+      let m = next_ranges r in
+      let rec nat_of_int i = if i <= 0 then O else S (nat_of_int (i - 1)) in
+      let nb = (if conn = 4 then nb4 (nat_of_int d) else nb8 (nat_of_int d)) in
+      let dn = n_of_int d in
+      (match moc_cells_o Hpx w dn m with
+       | None -> out_s "ERR cells-fuel"
+       | Some cells ->
+         (match ff_split (max_depth Hpx w) dn (ext_of nb dn) cells with
+          | None -> out_s "ERR fuel"
+          | Some comps ->
+              out_s "OK"; out_int (List.length comps);
+              List.iter (fun c -> out_int (List.length c); List.iter (fun (a, b) -> out_n a; out_n b) c) comps))
   | "FILL" ->
       let w = next_n r in
       let d = next_int r in
